@@ -166,7 +166,17 @@ pub fn case_c03(d: &[u8]) -> c03::Case {
     let ne = r.idx(3);
     let events = (0..ne).map(|_| ev_simple(r, n)).collect();
     let max_steps = r.opt(2, |r| 1 + r.idx(59));
-    c03::Case { prob, span, infinite: false, method, rtol, atol, first_step, max_step, t_eval, dense, events, max_steps }
+    // appended field (older corpus files decode to None)
+    let fault = if r.u8() % 8 == 1 {
+        Some(match r.u8() % 3 {
+            0 => crate::instr::Fault::From { at: r.f(0.05, 0.98), v: r.u8() % 3 },
+            1 => crate::instr::Fault::CompFrom { at: r.f(0.05, 0.98), i: r.idx(4), v: r.u8() % 3 },
+            _ => crate::instr::Fault::NormAbove { theta: r.f(0.3, 3.0), v: r.u8() % 3 },
+        })
+    } else {
+        None
+    };
+    c03::Case { prob, span, infinite: false, method, rtol, atol, first_step, max_step, t_eval, dense, events, max_steps, fault }
 }
 
 pub fn case_c04(d: &[u8]) -> c04::Case {
